@@ -129,13 +129,16 @@ def drv_symbolic(c, ctx, col):
     key = "symbolic :: Formula(%r, _ordering=%r).differentiate(%s)" % (s, ordering, ", ".join(repr(w) for w in wrt))
     detail = {"formula": s, "ordering": ordering, "wrt": list(wrt), "original_terms": before,
               "repro": "Formula(%r, _ordering=%r).differentiate(%s)" % (s, ordering, ", ".join(repr(w) for w in wrt))}
+    want = {k: expected_terms(v, wrt) for k, v in before.items()}
     try:
         D = F.differentiate(*wrt)
     except Exception as e:
+        if any(t is None for v in want.values() for t in v):
+            col.count("unspecified-function-of-wrt-raises")  # refusing what cannot be done without sympy is not a violation
+            return
         col.violation(key, dict(detail, error=repr(e)), sig="differentiate-raises")
         return
     got = {k: side_terms(v) for k, v in sides_of(D).items()}
-    want = {k: expected_terms(v, wrt) for k, v in before.items()}
     detail.update(got=got, want=want)
     specified = sum(1 for v in want.values() for t in v if t is not None)
     unspecified = sum(1 for v in want.values() for t in v if t is None)
@@ -262,6 +265,9 @@ def drv_numeric(c, ctx, col):
         n_zero = sum(1 for f in sides_of(Dsym).values() for t in f if str(t) == "0")
     except Exception:
         n_zero = -1
+        if any(r[0] == "UNSPEC" for v in want_all.values() for r in v):
+            col.count("unspecified-function-of-wrt-raises")
+            return
     has_one = any(r == ("TERM", ()) for v in want_all.values() for r in v)
     key = "numeric[%s] :: %r wrt=%s ensure_full_rank=%s (zero-terms=%d unit-term=%s)" % (
         path, shown, list(wrt), efr, n_zero, "yes" if has_one else "no")
